@@ -1024,7 +1024,17 @@ impl<Front: SocketHandler + std::fmt::Debug, L: ListenerHandler + L7ListenerHand
                         dead_backends.push(*token);
                     }
 
-                    if !client.readiness().filter_interest().is_empty() {
+                    // A hang-up whose handling is deferred (the buffer is full
+                    // and waits for the frontend to drain it) stays in the
+                    // event: on its own it is not work for this loop. Counting
+                    // it spins to MAX_LOOP_ITERATIONS and closes the session
+                    // with the rest of the response unsent; the frontend's
+                    // next WRITABLE edge resumes the read instead.
+                    let mut pending = client.readiness().filter_interest();
+                    if dead {
+                        pending.remove(Ready::HUP | Ready::ERROR);
+                    }
+                    if !pending.is_empty() {
                         all_backends_readiness_are_empty = false;
                     }
                 }
